@@ -61,6 +61,8 @@ def main():
     if "--seeded" in sys.argv:
         patches = []
         for d in sorted(glob.glob(os.path.join(VERIF, "seeded", "*"))):
+            if not os.path.isdir(d):
+                continue
             key = os.path.basename(d)
             link = os.path.join("/tmp/bita-mut", "seeded-%s.patch" % key)
             os.makedirs("/tmp/bita-mut", exist_ok=True)
